@@ -88,6 +88,8 @@ type playDef struct {
 	// Signal to send: 0 none, else syscall number, after SigAtMs.
 	Sig     int
 	SigAtMs int
+	// SigAfter: if set, SigAtMs counts from the moment the ledger shows this action started
+	SigAfter string
 	// fault descriptor (C07)
 	Fault    string
 	FaultPos string
@@ -305,8 +307,22 @@ func runPlay(shk string, p *playDef, idx int) (obs observation, cfgText string) 
 	done := make(chan error, 1)
 	go func() { done <- c.Wait() }()
 	var sigCh <-chan time.Time
-	if p.Sig != 0 {
+	if p.Sig != 0 && p.SigAfter == "" {
 		sigCh = time.After(time.Duration(p.SigAtMs) * time.Millisecond)
+	} else if p.Sig != 0 {
+		ch := make(chan time.Time, 1)
+		sigCh = ch
+		go func() {
+			want := " A " + p.SigAfter + " 1 S "
+			for i := 0; i < 7000; i++ {
+				if data, err := ioutil.ReadFile(ledger); err == nil && strings.Contains(string(data), want) {
+					break
+				}
+				time.Sleep(10 * time.Millisecond)
+			}
+			time.Sleep(time.Duration(p.SigAtMs) * time.Millisecond)
+			ch <- time.Now()
+		}()
 	}
 	bound := time.After(boundSec * time.Second)
 	var werr error
@@ -885,10 +901,10 @@ func genC07(rng *rand.Rand, tier string) []*playDef {
 		mk         func(p *playDef)
 	}
 	slows := []slow{
-		{"action-hangs-sigint", "b1s0", func(p *playDef) { p.action("b1s0").Hang = true; p.Sig, p.SigAtMs = int(syscall.SIGINT), 450 }},
+		{"action-hangs-sigint", "b1s0", func(p *playDef) { p.action("b1s0").Hang = true; p.Sig, p.SigAtMs, p.SigAfter = int(syscall.SIGINT), 100, "b1s0" }},
 		{"cleanup-hangs-1", "x2", func(p *playDef) { p.CleanHangAt = 1; p.CleanActor = "x2" }},
 		{"action-hangs-peer-fails", "b1s0", func(p *playDef) { p.action("b1s0").Hang = true; p.action("b0s0").FailAt = -1 }},
-		{"action-hangs-sigterm", "a0s0", func(p *playDef) { p.action("a0s0").Hang = true; p.Sig, p.SigAtMs = int(syscall.SIGTERM), 300 }},
+		{"action-hangs-sigterm", "a0s0", func(p *playDef) { p.action("a0s0").Hang = true; p.Sig, p.SigAtMs, p.SigAfter = int(syscall.SIGTERM), 100, "a0s0" }},
 		{"cleanup-hangs-2", "x1", func(p *playDef) { p.CleanHangAt = 2; p.CleanActor = "x1" }},
 		{"action-hangs-spotlight-fails", "c0s0", func(p *playDef) {
 			p.action("c0s0").Hang = true
